@@ -15,7 +15,10 @@ CONSTANTS N,          \* number of stages
           Units,      \* units a producer writes
           Cap,        \* pipe capacity
           DropParentCloseW,  \* mutant switch: parent forgets to close write end
-          FailAt,            \* 0 = no fault; k = the k-th pipe() of run_pipeline fails with EMFILE
+          FailAt,            \* 0 = no fault; k = the k-th pipe() of run_pipeline fails with EMFILE (the N-1 pipes of the pipeline,
+                             \* then the two capture pipes, then the here-string pipe)
+          LateFail,          \* what happens when a pipe made AFTER the pipeline's own pipes fails: "leak" = core.rs as pinned
+                             \* (returns with the pipeline's pipes open), "clean" = repaired (everything is closed, nothing more starts)
           Capture,           \* TRUE = output of the last stage is captured (command substitution)
           HereAt,            \* 0 = no here-string; i = stage i reads a here-string (`cmd <<< word`)
           HereUnits,         \* units the shell writes into the here-string pipe
@@ -87,17 +90,24 @@ MkPipe ==
           /\ spc' = IF spc[2] < N - 1 THEN <<"mkpipe", spc[2] + 1>> ELSE IF Capture THEN <<"mkcap", 0>> ELSE ToFork(1)
   /\ UNCHANGED <<alive, cpc, buf, left, got, status, nextfd, reaped>>
 
+CapCall == N                                      \* number of the first capture pipe() call
+HereCall == N + (IF Capture THEN 2 ELSE 0)       \* number of the here-string pipe() call
+CloseAllPipes(f) == [d \in {x \in Dom(f) : x <= 2} |-> f[d]]
 MkCapture ==
   /\ spc[1] = "mkcap"
-  /\ LET r1 == LowestFree(fdt[Shell])
-         f1 == With(fdt[Shell], r1, R(CapO))
-         w1 == LowestFree(f1)
-         f2 == With(f1, w1, W(CapO))
-         r2 == LowestFree(f2)
-         f3 == With(f2, r2, R(CapE))
-         w2 == LowestFree(f3)
-     IN fdt' = [fdt EXCEPT ![Shell] = With(f3, w2, W(CapE))]
-  /\ spc' = ToFork(1)
+  /\ IF FailAt \in {CapCall, CapCall + 1}
+     THEN \* a capture pipe cannot be made (a first one is closed again by the code in both versions)
+          /\ fdt' = IF LateFail = "clean" THEN [fdt EXCEPT ![Shell] = CloseAllPipes(@)] ELSE fdt
+          /\ spc' = <<"failed", 0>>
+     ELSE /\ LET r1 == LowestFree(fdt[Shell])
+                 f1 == With(fdt[Shell], r1, R(CapO))
+                 w1 == LowestFree(f1)
+                 f2 == With(f1, w1, W(CapO))
+                 r2 == LowestFree(f2)
+                 f3 == With(f2, r2, R(CapE))
+                 w2 == LowestFree(f3)
+             IN fdt' = [fdt EXCEPT ![Shell] = With(f3, w2, W(CapE))]
+          /\ spc' = ToFork(1)
   /\ UNCHANGED <<alive, cpc, buf, left, got, status, nextfd, reaped>>
 
 Fork ==
@@ -113,11 +123,19 @@ Fork ==
 \* writes the text into the pipe (blocking when it is full) and closes the write end; the child makes the read end its stdin
 MkHere ==
   /\ spc[1] = "mkhere"
-  /\ LET r == LowestFree(fdt[Shell])
-         f1 == With(fdt[Shell], r, R(HerePipe))
-         w == LowestFree(f1)
-     IN fdt' = [fdt EXCEPT ![Shell] = With(f1, w, W(HerePipe))]
-  /\ spc' = <<"fork", spc[2]>>
+  /\ IF FailAt = HereCall
+     THEN \* the stage cannot be started. Pinned: run_single_program returns with every pipe still open in the shell (modelled as
+          \* the end of the launch). Repaired: what is left of the pipes is closed, nothing more is started, and the shell waits
+          \* for the stages that already run (they see the end of their input / a closed reader)
+          IF LateFail = "clean"
+          THEN /\ fdt' = [fdt EXCEPT ![Shell] = CloseAllPipes(@)]
+               /\ spc' = IF \A i \in Stages : alive[i] \in {"unborn", "reaped"} THEN <<"failed", 0>> ELSE <<"wait", 0>>
+          ELSE fdt' = fdt /\ spc' = <<"failed", 0>>
+     ELSE /\ LET r == LowestFree(fdt[Shell])
+                 f1 == With(fdt[Shell], r, R(HerePipe))
+                 w == LowestFree(f1)
+             IN fdt' = [fdt EXCEPT ![Shell] = With(f1, w, W(HerePipe))]
+          /\ spc' = <<"fork", spc[2]>>
   /\ UNCHANGED <<alive, cpc, buf, left, got, status, nextfd, reaped>>
 HereClose ==
   /\ spc[1] = "hereclose"
@@ -188,7 +206,7 @@ Wait(i) ==
   /\ spc[1] = "wait" /\ alive[i] = "zombie"
   /\ alive' = [alive EXCEPT ![i] = "reaped"]
   /\ reaped' = reaped + 1
-  /\ spc' = IF reaped + 1 = N THEN <<"done", 0>> ELSE spc
+  /\ spc' = IF \A j \in Stages \ {i} : alive[j] \in {"unborn", "reaped"} THEN <<"done", 0>> ELSE spc     \* every started stage is reaped
   /\ UNCHANGED <<fdt, cpc, buf, left, got, status, nextfd>>
 
 \* ---------------- child set-up (as in run_single_program) ----------------
@@ -359,11 +377,11 @@ Spec == Init /\ [][Next]_vars /\ WF_vars(Next)
 \* ---------------- properties ----------------
 ExecFds == \A i \in Stages : cpc[i] \in {"exec", "prog"} => Dom(fdt[i]) = {0, 1, 2}
 ShellFdsRestored == spc[1] \in {"wait", "done", "failed"} => Dom(fdt[Shell]) = {0, 1, 2}
-FaultClean == spc[1] = "failed" => (\A i \in Stages : alive[i] = "unborn")
+FaultClean == spc[1] = "failed" /\ (LateFail = "clean" \/ FailAt < HereCall \/ ~(HereAt \in Stages)) => (\A i \in Stages : alive[i] \in {"unborn", "reaped"})
 NoForeignEnds == spc[1] \in {"wait", "done"} =>
    \A k \in Pipes : \A p \in Procs : (alive[p] = "run" /\ (p = Shell \/ cpc[p] = "prog")) =>
       ((Has(fdt[p], W(k)) => p = k) /\ (Has(fdt[p], R(k)) => p = k + 1))
-Delivery == (spc[1] = "done" /\ \A i \in Stages : Kinds[i] \in {"prod", "filt", "cons"}) =>
+Delivery == (spc[1] = "done" /\ FailAt = 0 /\ \A i \in Stages : Kinds[i] \in {"prod", "filt", "cons"}) =>
              got[N] = (IF HereAt = N THEN HereUnits ELSE IF Kinds[1] = "prod" THEN Units ELSE 0)
 Termination == <>(spc[1] \in {"done", "failed"})
 ShellAlive == spc[1] # "dead"
